@@ -53,7 +53,7 @@ CHECKS = {
    note="Wall clock assumed not to step backwards by more than 20 ms; verdicts on rows whose deadline was moved close to the old one are withheld."),
  "C18": dict(engine=E3, cat="exploration", ref="DESIGN.md 4/C18",
    technique="Go race detector (halt_on_error=0, log_path) over eight repeated parallel workload mixes with injected delays; reports de-duplicated by function pair and classified by exact stack signature; watchdog + goroutine-dump classification for termination",
-   text="Held = no race report other than the two recorded findings (KF-RACE-GROW, KF-RACE-ENUM-DATA, matched by exact stack signature) and every round terminated; E2's serialized schedules (C06/C08/C09/C15/C12 checks) double as deadlock probes.",
+   text="Held = no race report other than the recorded finding KF-RACE-GROW (matched by stack signature) and every round terminated; E2's serialized schedules (C06/C08/C09/C15/C12 checks) double as deadlock probes.",
    note="The race detector reports only races that the executed schedules make observable."),
  "C19": dict(e1("Held on every transaction of the histories: per row the trigger callback log equals the model's committed stores (after merge) and row deletions, nothing for rolled-back transactions or dropped triggers; recorded finding KF-VARLEN-MERGE-REORDER via directed probe."), ref="DESIGN.md 4/C19"),
 }
